@@ -394,3 +394,193 @@ def rule_F9(ctx, prog, label, rule='F9'):
             raise
     rr.require_floor(8, 'cuts and wrapper calls')
     return rr
+
+
+# ====================================================================== SP1: a half split cuts the axis it was computed from
+
+HALF_SPLITTERS = ('_mzd_trsm_upper_right', '_mzd_trsm_lower_right', '_mzd_trsm_lower_left', '_mzd_trsm_upper_left', '_mzd_ple')
+
+
+def _half_split_of(d, fs):
+    """d = ((E >> 1) * radix) or ((E / 2) * radix): the set of symbolic dimension values E is computed from, else None"""
+    d = strip(d, casts=True)
+    if d is None or d.kind != 'BinaryOperator' or d.op != '*':
+        return None
+    for (a, b) in ((d.kids[0], d.kids[1]), (d.kids[1], d.kids[0])):
+        b0 = strip(b, casts=True)
+        if not (int_value(b0) == 64 or pp(b0) == 'm4ri_radix'):
+            continue
+        a0 = strip(a, casts=True)
+        if a0.kind == 'BinaryOperator' and ((a0.op == '>>' and int_value(a0.kids[1]) == 1) or (a0.op == '/' and int_value(a0.kids[1]) == 2)):
+            dims = set()
+
+            def collect(e_, depth=0):
+                for x in e_.walk():
+                    t = (x.type or '').replace('const', '').strip()
+                    if x.kind == 'DeclRefExpr' and x.refkind == 'VarDecl' and t in ('rci_t', 'wi_t', 'int'):
+                        d_ = fs.single_def(x.refid)
+                        before = len(dims)
+                        if d_ is not None and depth < 6 and strip(d_, casts=True).kind != 'CallExpr':
+                            collect(d_, depth + 1)      # a named intermediate stands for its definition
+                        if len(dims) == before and t == 'rci_t' and (d_ is None or int_value(d_) is None):
+                            dims.add(repr(fs.sym(x)))
+                    elif x.kind == 'DeclRefExpr' and x.refkind == 'ParmVarDecl' and t == 'rci_t':
+                        dims.add(repr(fs.sym(x)))
+                    elif x.kind == 'MemberExpr' and x.name in ('nrows', 'ncols'):
+                        dims.add(repr(fs.sym(x)))
+            collect(a0.kids[0])
+            return dims
+    return None
+
+
+def rule_SP1(ctx, prog, label, rule='SP1', funcs=HALF_SPLITTERS):
+    """recursive TRSM / PLE: the cut `s = half(E)` (half the words of E, on a word boundary) satisfies 0 <= s <= E and nothing
+    else; every window that starts at s on an axis must therefore end at E on that axis - a cut computed from the other
+    dimension can exceed the extent (negative-size window, access past the operand) or be 0 (the recursion never ends)."""
+    from .symbolic import FuncSym
+    rr = RuleResult(rule, 'recursive TRSM / PLE: a window that starts at the half-split point of an axis ends at the dimension the split point was computed from')
+    nf = 0
+    for name in funcs:
+        f = prog.funcs.get(name)
+        if f is None or f.body is None:
+            raise AnalysisBroken('%s: recursive splitter %s no longer exists' % (rule, name))
+        fs = FuncSym(f)
+        cuts = {}
+        for vid, ds in fs.defs.items():
+            if len(ds) != 1 or vid in fs.mutated:
+                continue
+            dims = _half_split_of(ds[0], fs)
+            if dims is not None:
+                if len(dims) != 1:
+                    raise AnalysisBroken('%s: split point in %s is computed from %d dimensions (%s); form not modelled' % (rule, name, len(dims), sorted(dims)))
+                cuts[vid] = list(dims)[0]
+        if not cuts:
+            raise AnalysisBroken('%s: %s no longer computes a half-split point' % (rule, name))
+        nf += 1
+        for c in f.body.find('CallExpr'):
+            if callee_name(c) not in ('mzd_init_window', 'mzd_init_window_const') or len(c.kids) < 6:
+                continue
+            for (axis, lo, hi) in (('row', c.kids[2], c.kids[4]), ('column', c.kids[3], c.kids[5])):
+                l0 = strip(lo, casts=True)
+                if l0.kind == 'DeclRefExpr' and l0.refid in cuts:
+                    rr.instances += 1
+                    h = repr(fs.sym(hi))
+                    ok = (h == cuts[l0.refid])
+                    rr.ob(ok, dict(function=name, window=pp(c)[:70], axis=axis, cut=l0.ref, extent=h),
+                          Finding(rule, '%s|%s|%s|%s' % (rule, name, axis, pp(strip(c.kids[1], casts=True))), c.loc, name,
+                                  'window `%s` runs on its %s axis from the split point `%s` to `%s`, but `%s` is half of %s: the split point is only '
+                                  'known to lie in [0, %s], so the window can have negative size or start past the operand, and a split of 0 makes the '
+                                  'recursion call itself with the same arguments' % (pp(c)[:70], axis, l0.ref, pp(strip(hi, casts=True)), l0.ref,
+                                                                                   cuts[l0.refid], cuts[l0.refid]), {}, label))
+    rr.require_floor(12, 'windows starting at a split point')
+    return rr
+
+
+# ====================================================================== WB1: windows of scratch matrices end inside them
+
+def _small_range(e, fs, depth=0):
+    """(lo, hi) of an expression built from bounded pieces only (alignment remainders, comparisons, shifts of positive
+    constants, constants), else None"""
+    e = strip(e, casts=True)
+    if e is None or depth > 8:
+        return None
+    v = int_value(e)
+    if v is not None:
+        return (v, v)
+    if e.kind == 'DeclRefExpr' and e.refkind == 'VarDecl':
+        d = fs.single_def(e.refid)
+        return _small_range(d, fs, depth + 1) if d is not None else None
+    if e.kind == 'BinaryOperator':
+        if e.op in ('==', '!=', '<', '<=', '>', '>=', '&&', '||'):
+            return (0, 1)
+        if e.op == '%':
+            n = int_value(e.kids[1])
+            if n is None or n <= 0:
+                return None
+            x = strip(e.kids[0], casts=True)
+            t = (x.type or '')
+            if n % 8 == 0 and t.rstrip().endswith('*') and ('word' in t or 'uint64_t' in t):
+                return (0, n - 8)          # addresses of 64-bit words are multiples of 8
+            return (0, n - 1)
+        if e.op == '<<':
+            c = int_value(e.kids[0])
+            return (c, INF) if c is not None and c > 0 else None
+        a, b = _small_range(e.kids[0], fs, depth + 1), _small_range(e.kids[1], fs, depth + 1)
+        if a is None or b is None:
+            return None
+        if e.op == '+':
+            return (a[0] + b[0], a[1] + b[1])
+        if e.op == '-':
+            return (a[0] - b[1], a[1] - b[0])
+        if e.op == '*' and a[0] >= 0 and b[0] >= 0:
+            return (a[0] * b[0], a[1] * b[1])
+        if e.op == '/' and a[0] >= 0 and b[0] == b[1] and b[0] > 0:
+            return (a[0] // b[0], a[1] // b[0])
+    return None
+
+
+def rule_WB1(ctx, prog, label, rule='WB1'):
+    """A window into a matrix that the same function created with mzd_init(R, C) must end inside it: highr <= R, highc <= C.
+    Decided where the difference is a combination of bounded terms (alignment remainders of row addresses, comparisons, table
+    sizes 2^k); other sites are listed as not decided.  The scratch tables of the Four-Russians routines are shifted by the
+    alignment of the operand - a table allocated without the spare word is overrun by one word per row."""
+    from .symbolic import FuncSym, Lin
+    rr = RuleResult(rule, 'windows into a matrix created in the same function end inside it (table windows shifted by the operand\'s alignment included)')
+    undecided = 0
+    for f in sorted(prog.all_funcs(), key=lambda f: (f.file, f.line)):
+        fs = None
+        for c in f.body.find('CallExpr'):
+            if callee_name(c) not in ('mzd_init_window', 'mzd_init_window_const') or len(c.kids) < 6:
+                continue
+            x = strip(c.kids[1], casts=True)
+            fs = fs or FuncSym(f)
+            d0 = None
+            if x.kind == 'DeclRefExpr' and x.refkind == 'VarDecl':
+                d = fs.single_def(x.refid)
+                d0 = strip(d, casts=True) if d is not None else None
+            elif x.kind == 'ArraySubscriptExpr':
+                # Talign[z] = mzd_init(..); window(Talign[z], ..) in the same block
+                asg = [n for n in f.body.walk() if n.kind == 'BinaryOperator' and n.op == '=' and pp(strip(n.kids[0], casts=True)) == pp(x)]
+                if len(asg) == 1:
+                    d0 = strip(asg[0].kids[1], casts=True)
+            if d0 is None or d0.kind != 'CallExpr' or callee_name(d0) != 'mzd_init':
+                continue
+            for (axis, hi, ext) in (('row', c.kids[4], d0.kids[1]), ('column', c.kids[5], d0.kids[2])):
+                diff = fs.sym(hi) - fs.sym(ext)
+                # bound every atom of the difference through a sub-expression that denotes it
+                pool = {}
+                stack = [hi, ext]
+                seen = 0
+                while stack and seen < 400:
+                    n = stack.pop()
+                    seen += 1
+                    n0 = strip(n, casts=True)
+                    if n0 is None:
+                        continue
+                    s = fs.sym(n0)
+                    if len(s.t) == 1 and s.c == 0 and list(s.t.values())[0] == 1:
+                        r = _small_range(n0, fs)
+                        if r is not None:
+                            pool.setdefault(list(s.t.keys())[0], r)
+                    if n0.kind == 'DeclRefExpr' and n0.refkind == 'VarDecl' and fs.single_def(n0.refid) is not None:
+                        stack.append(fs.single_def(n0.refid))
+                    stack.extend(n0.kids)
+                up = diff.c
+                decided = True
+                for a, k in diff.t.items():
+                    r = pool.get(a)
+                    if r is None or (k > 0 and r[1] >= INF) or (k < 0 and r[0] <= -INF):
+                        decided = False
+                        break
+                    up += k * (r[1] if k > 0 else r[0])
+                if not decided:
+                    undecided += 1
+                    continue
+                rr.instances += 1
+                rr.ob(up <= 0, dict(function=f.name, window=pp(c)[:60], axis=axis, excess_at_most=up),
+                      Finding(rule, '%s|%s|%s|%s' % (rule, f.name, pp(x), axis), c.loc, f.name,
+                              'window `%s` can end %d %ss past the end of `%s`, which this function created as `%s` (excess %r): the window\'s last '
+                              'word lies outside the allocated block' % (pp(c)[:70], up, axis, pp(x), pp(d0)[:60], diff), {}, label))
+    rr.extra['sites_not_decided'] = undecided
+    rr.require_floor(8, 'decidable window axes into scratch matrices')
+    return rr
